@@ -806,7 +806,9 @@ def _judge_meta(b, out):
             repro = True
         if kind == 'mtime' and v.get('mtime') != e.get('mtime'):
             repro = True
-    if kind in ('errors', 'content', 'other', 'owner'):
+    if kind == 'content' and 'content_mismatches' in out and any(e.get('parts') for e in ents.values()):
+        repro = bool(out.get('content_mismatches')) or bool(out.get('errors'))
+    elif kind in ('errors', 'content', 'other', 'owner'):
         repro = bool(out.get('errors')) or str(out.get('result', '')).startswith('Err') or kind in ('content', 'owner', 'other')
     return 'restore:attribute:%s' % kind, 'restore does not reproduce the archived attributes: %s' % probs, repro
 
